@@ -1,6 +1,7 @@
 package s3c
 
 import (
+	"crypto/tls"
 	"bufio"
 	"bytes"
 	"fmt"
@@ -326,6 +327,7 @@ type Transport interface {
 type TCP struct {
 	Addr    string
 	Timeout time.Duration
+	TLS     bool // speak TLS (certificate not verified)
 }
 
 func (t *TCP) RoundTrip(head, body []byte, fragments []int) ([]byte, error) {
@@ -333,7 +335,13 @@ func (t *TCP) RoundTrip(head, body []byte, fragments []int) ([]byte, error) {
 	if to == 0 {
 		to = 20 * time.Second
 	}
-	c, err := net.DialTimeout("tcp", t.Addr, 5*time.Second)
+	var c net.Conn
+	var err error
+	if t.TLS {
+		c, err = tls.DialWithDialer(&net.Dialer{Timeout: 5 * time.Second}, "tcp", t.Addr, &tls.Config{InsecureSkipVerify: true})
+	} else {
+		c, err = net.DialTimeout("tcp", t.Addr, 5*time.Second)
+	}
 	if err != nil {
 		return nil, err
 	}
@@ -348,7 +356,7 @@ func (t *TCP) RoundTrip(head, body []byte, fragments []int) ([]byte, error) {
 		respCh <- b
 	}()
 	werr := writeFragments(c, head, body, fragments)
-	if tc, ok := c.(*net.TCPConn); ok && werr == nil {
+	if tc, ok := c.(interface{ CloseWrite() error }); ok && werr == nil {
 		tc.CloseWrite()
 	}
 	resp := <-respCh
